@@ -430,6 +430,7 @@ class BaseProperty(base.BaseObject):
 
         new_value = self._convert_value_input(new_value)
 
+        old_dtype = self._dtype
         if self._dtype is None:
             self._dtype = dtypes.infer_dtype(new_value[0])
 
@@ -444,6 +445,8 @@ class BaseProperty(base.BaseObject):
             if self._dtype in ("date", "time", "datetime"):
                 req_format = dtypes.default_values(self._dtype)
                 msg += " \'%s\'! Format should be \'%s\'." % (self._dtype, req_format)
+            # Do not keep a dtype that was inferred from refused values.
+            self._dtype = old_dtype
             raise ValueError(msg)
 
         self._values = [dtypes.get(v, self.dtype) for v in new_value]
